@@ -76,7 +76,9 @@ def gen_op(rng):
         a = rng.choice(sorted(ATTR_OPS))
         return ("attr", a), ATTR_OPS[a]
     if k == "areas":
-        rule, order = rng.choice([("triangular", 4), ("triangular", 1), ("gaussian", 3), ("triangular", 8), ("gaussian", 5)])
+        # every rule with the DEFAULT order (4) and with other orders: a cache keyed on one of the two arguments only must show
+        rule, order = rng.choice([("triangular", 4), ("triangular", 1), ("gaussian", 3), ("triangular", 8), ("gaussian", 5),
+                                  ("gaussian", 4), ("gaussian", 4), ("triangular", 10), ("gaussian", 6)])
         latlon = rng.random() < 0.6
         return ("areas", rule, order, latlon), ["NPF"] + ([] if latlon else ["NXYZ"])
     if k == "total":
@@ -572,6 +574,9 @@ def main(ck):
                 op, gets = ("spawn_copy",), []
                 ngr += 1
             hist.append((t, op, gets))
+            if op[0] in ("areas", "total") and rng.random() < 0.5:
+                a = rng.choice(["face_jacobian", "face_areas"])
+                hist.append((t, ("attr", a), ATTR_OPS[a]))
         lens[n] = lens.get(n, 0) + 1
         ck.note_case(([m.faces for m in meshes], kinds, [(t, op) for t, op, _ in hist]), nontrivial=n >= 2)
         case, impl_sets = run_history(ck, meshes, kinds, hist, refs, g0, None, stats)
@@ -678,6 +683,16 @@ def main(ck):
             hist3 = [(0, (tree, c, sy, me, False), []) for c in perm] + [(0, (tree, perm[0], sy, me, False), []),
                                                                       (0, (tree, perm[1], sy, me, False), [])]
             run_history(ck, [pm], ["lonlat"], hist3, [pref], g0, None, stats)
+    # a parameterised computation as the FIRST call on a grid, then the attributes it might have left behind outside _ds
+    # (face_jacobian and face_areas are answered from private slots): a slot filled under other arguments must not be served
+    first_call_count = 0
+    for rule, order in (("triangular", 4), ("gaussian", 4), ("gaussian", 3), ("triangular", 8), ("triangular", 1), ("gaussian", 6)):
+        for latlon in (True, False):
+            for a in ("face_jacobian", "face_areas"):
+                first_call_count += 1
+                run_history(ck, [pm], ["lonlat"], [(0, ("areas", rule, order, latlon), []), (0, ("attr", a), []),
+                                                   (0, ("total", "gaussian", 4), []), (0, ("attr", "face_jacobian"), [])],
+                            [pref], g0, None, stats)
     # everything derived, then chunk(), then every observation again
     obs = [("attr", a) for a in sorted(ATTR_OPS) if a not in ("sizes", "dims")] + \
           [("areas", "triangular", 4, True), ("areas", "gaussian", 3, False), ("total", "triangular", 4), ("xr", "ugrid"), ("xr", "exodus"),
@@ -711,7 +726,7 @@ def main(ck):
                 before = [(0, ("attr", "antimeridian_face_indices"), []), (0, ("attr", "face_areas"), []), (0, ("attr", "bounds"), [])]
                 run_history(ck, [pm], ["lonlat"], before + [(0, op, []), (0, op, [])], [pref], g0, None, stats)
     chunk_count += 2 * shifted
-    ck.cov["evaluations"] += pair_count + triple_count + chunk_count
+    ck.cov["evaluations"] += pair_count + triple_count + chunk_count + first_call_count
     # the correspondence broke: look for a concrete observable difference harder (longer histories)
     if ck.corr_failures and not ck.violations:
         for extra in range(40):
@@ -751,7 +766,7 @@ def main(ck):
                       "cross_section, get_dual, copy, repr; after every op: variable set vs model, every stored variable vs its "
                       "fresh value, module constants vs import-time snapshot, result vs fresh result; non-trivial = length >= 2")
     ck.extra.update({"op_histogram": stats["ops"], "history_lengths": {str(k): v for k, v in sorted(lens.items())},
-                     "model_histories_compared": len(keep), "ordered_cache_call_pairs": pair_count, "tree_kind_triples": triple_count, "post_chunk_observations": chunk_count, "jit_off_values_compared": jit_cases,
+                     "model_histories_compared": len(keep), "ordered_cache_call_pairs": pair_count, "tree_kind_triples": triple_count, "first_call_then_private_slot_histories": first_call_count, "post_chunk_observations": chunk_count, "jit_off_values_compared": jit_cases,
                      "translator": "harness/translators/c08_caches.py -> Gen/C08_caches.v (compared/stored key sets of 5 caches)"})
     ck.trusted += ["translator c08_caches.py (fail-closed)", "dependency table c08_deps (hand-written from the populators; checked "
                    "against the variable sets observed after every operation)",
